@@ -83,6 +83,11 @@ impl Drop for Quiet {
     }
 }
 
+/// Is the current thread inside a `Quiet` section (queue teardown)?
+pub fn is_quiet() -> bool {
+    QUIET.with(|q| q.get()) > 0
+}
+
 /// Install (or remove) the runtime. Must not race with running agents.
 pub unsafe fn set_runtime(rt: Option<&'static dyn Runtime>) {
     RUNTIME = rt;
